@@ -702,6 +702,72 @@ func init() {
 			}
 		}, nil
 	}
+	// C10: claims types that have no encoding methods of their own and embed the profile-2 claims by value, by pointer
+	// and through two pointers, through every encoding entry point: the base claims and the added ones are one map
+	Scenarios["c10.plain-embedding-types"] = func() (choice.Scenario, func() any) {
+		return func(c *choice.Ctx) {
+			a := genValidOpt(c, kindP2, false, true)
+			xi, err := buildBySetters(a)
+			if err != nil {
+				return
+			}
+			p2 := xi.(*psatoken.P2Claims)
+			e7, v := int64(7), "acme"
+			shape := c.Choose("embedding", 3)
+			var x psatoken.IClaims
+			extra := map[int64]bool{-75100: true}
+			switch shape {
+			case 0:
+				x = &PlainValEmbedClaims{P2Claims: *p2, Extra: &e7}
+			case 1:
+				x = &PlainPtrEmbedClaims{P2Claims: p2, Extra: &e7}
+			case 2:
+				x = &PlainTwoPtrClaims{PlainPtrEmbedClaims: &PlainPtrEmbedClaims{P2Claims: p2, Extra: &e7}, Vendor: &v}
+				extra[-75400] = true
+			}
+			tag := "P2:plain-" + []string{"value-embed", "pointer-embed", "two-pointer-embed"}[shape]
+			entry := c.Choose("entry", 3)
+			var enc []byte
+			switch entry {
+			case 0:
+				enc, err = psatoken.EncodeClaimsToCBOR(x)
+			case 1:
+				enc, err = psatoken.ValidateAndEncodeClaimsToCBOR(x)
+			case 2:
+				ev := &psatoken.Evidence{}
+				if err = ev.SetClaims(x); err == nil {
+					var tok []byte
+					if tok, err = ev.Sign(fixtures.Get("ES256", 1).Signer()); err == nil {
+						if vw, perr := viewSign1(tok); perr == nil {
+							enc = vw.payload
+						} else {
+							err = perr
+						}
+					}
+				}
+			}
+			tag += ":" + []string{"EncodeClaimsToCBOR", "ValidateAndEncodeClaimsToCBOR", "Sign"}[entry]
+			encStats.StateStr(tag + a.String())
+			encStats.Trans.Add(1)
+			if err != nil {
+				c.Failf("C10:encode-error:"+tag, "%v", err)
+				return
+			}
+			c10Strict(c, encStats, a, enc, tag, extra)
+			if n, perr := mcbor.DecodeAll(enc); perr == nil && n.K == mcbor.Map {
+				seen := map[int64]bool{}
+				for _, p := range n.Pairs {
+					k, _ := p[0].Int()
+					seen[k] = true
+				}
+				for k := range extra {
+					if !seen[k] {
+						c.Failf(fmt.Sprintf("C10:missing-key:%s:%d", tag, k), "a set claim of the outer struct is missing from the map")
+					}
+				}
+			}
+		}, nil
+	}
 	// C10/C11: the slice handed to SetSoftwareComponents stays the caller's: reusing it afterwards does not change what is
 	// encoded; for both instantiations of the generic container a claims-set can carry
 	Scenarios["c10.caller-reuses-list"] = func() (choice.Scenario, func() any) {
@@ -1429,6 +1495,7 @@ func init() {
 					exploreChoice(r, fmt.Sprintf("c10.signed-payload-after-change.%s", kindNames[kind]), 2, dl)
 					if kind == 0 {
 						exploreChoiceOpts(r, "c10.wrapper-claims", 2, dl, 1)
+						exploreChoiceOpts(r, "c10.plain-embedding-types", 2, dl, 1)
 						exploreChoice(r, "c10.caller-reuses-list", -1, dl)
 					}
 				}
